@@ -119,6 +119,16 @@ int run(const Args& A) {
                         v = Val::real(v.n < 0 ? -m : m);
                     }
         }
+        // EV+ forests: a third of the cases carry a LARGE offset (beyond 2^31, 2^32) on every finite value: built from
+        // minterms the children carry it, built as (small function) + constant it sits on the root edge only - the
+        // normal form (minimum pulled up, 64-bit edge values) must make both the same edge
+        long bigOffset = 0;
+        if (isEVP(k) && r.chance(1, 3)) {
+            static const long offs[] = {(1L << 31) + 5, 1L << 33, (1L << 40) + 12345};
+            bigOffset = offs[r.below(3)];
+            STATS.hit("gen.evplus.big-offset");
+            for (auto& tg : targets) for (auto& v : tg) if (v.t == Val::I) v.n += bigOffset;
+        }
         int serial = 0;
         auto hold = [&](const std::vector<Val>& tgt, int path) -> Held* {
             Held* h = new Held{std::string("E") + std::to_string(serial++), dd_edge(F), tgt, path};
@@ -152,6 +162,18 @@ int run(const Args& A) {
                         apply(COPY, there, back);
                         Held* h = hold(tgt, 2); h->e = back; STATS.hit("path.2");
                     } catch (error& e) { STATS.hit(std::string("copy.err.") + errName(e)); }
+                }
+                // path 5 (EV+ with a large offset): small function + constant
+                if (bigOffset && r.chance(2, 3)) {
+                    try {
+                        std::vector<Val> small = tgt;
+                        for (auto& v : small) if (v.t == Val::I) v.n -= bigOffset;
+                        dd_edge es(F), ec(F), res(F);
+                        buildFromTable(D, F, k, small, es);
+                        F->createConstant(bigOffset, ec);
+                        apply(PLUS, es, ec, res);
+                        Held* h = hold(tgt, 5); h->e = res; STATS.hit("path.5");
+                    } catch (error& e) { STATS.hit(std::string("path5.err.") + errName(e)); }
                 }
                 // path 3: identity chain
                 if (r.chance(1, 2)) {
